@@ -71,7 +71,7 @@ class C08Stream(R.ScenarioStream):
     name = "window"
     coq_header = R.C08_HEADER
     n_quick = 500
-    n_thorough = 15000
+    n_thorough = 10000
 
     def gen(self, rng, tier):
         yield from R.c08_boundary_cases()
